@@ -9,6 +9,7 @@
 #include "MainSolver.h"
 
 #include <common/ApiException.h>
+#include <common/VerifSim.h>
 #include <itehandler/IteHandler.h>
 #include <logics/ArrayTheory.h>
 #include <logics/LATheory.h>
@@ -140,8 +141,10 @@ bool MainSolver::tryAddTermNameFor(PTRef fla, std::string const & name) {
 
 sstat MainSolver::simplifyFormulas() {
     status = s_Undef;
+    OSMT_SIM_FRAME(this, opensmt::verifsim::FK_SIMPLIFY_BEGIN, static_cast<unsigned>(firstNotSimplifiedFrame), 0);
     for (std::size_t i = firstNotSimplifiedFrame; i < frames.frameCount() && status != s_False; i++) {
         PreprocessingContext context{.frameCount = i, .perPartition = trackPartitions()};
+        for (PTRef fla : frames[i].formulas) { OSMT_SIM_FRAME(this, opensmt::verifsim::FK_ASSERTED, static_cast<unsigned>(i), fla.x); }
         preprocessor.prepareForProcessingFrame(i);
         firstNotSimplifiedFrame = i + 1;
         if (context.perPartition) {
@@ -194,6 +197,7 @@ sstat MainSolver::simplifyFormulas() {
         assert(firstNotSimplifiedFrame > 0);
         rememberUnsatFrame(firstNotSimplifiedFrame - 1);
     }
+    OSMT_SIM_FRAME(this, opensmt::verifsim::FK_SIMPLIFY_END, static_cast<unsigned>(firstNotSimplifiedFrame), 0);
     return status;
 }
 
@@ -317,6 +321,7 @@ sstat MainSolver::giveToSolver(PTRef root, FrameId push_id) {
         void operator()(vec<Lit> && c) override { clauses.push_back(std::move(c)); }
     };
     ClauseCallBack callBack;
+    OSMT_SIM_FRAME(this, opensmt::verifsim::FK_ROOT, push_id, root.x);
     ts.setClauseCallBack(&callBack);
     ts.Cnfizer::cnfize(root, push_id);
     bool const keepPartitionsSeparate = trackPartitions();
